@@ -144,7 +144,10 @@ def normalize_key(
     if not isinstance(key, tuple):
         key = (key,)
 
-    expected_rank = sum(shape_mask) if for_dump else len(shape_mask)
+    if for_dump:
+        # A key used for dumping only indexes the external (mapped) axes
+        shape_mask = (True,) * sum(shape_mask)
+    expected_rank = len(shape_mask)
 
     if len(key) != expected_rank:
         msg = (
